@@ -40,6 +40,16 @@ type ReplayFile struct {
 	ShrinkTries int            `json:"shrink_tries"`
 	Log         []string       `json:"minimised_run_log"`
 	LogHash     uint64         `json:"log_hash"`
+
+	// Kind "worker-history": the violation did not reproduce from its unit's tape alone but does
+	// when the units the same worker process executed before it are executed first (the code under
+	// test carries state from one run to the next inside one process). Replay re-executes the
+	// sequence start+wid, start+wid+nw, ... up to the unit.
+	Kind  string `json:"kind,omitempty"`
+	Tier  string `json:"tier,omitempty"`
+	Wid   int    `json:"wid,omitempty"`
+	NW    int    `json:"nw,omitempty"`
+	Start int    `json:"start,omitempty"`
 }
 
 type foundViolation struct {
@@ -47,6 +57,7 @@ type foundViolation struct {
 	Replay string        `json:"replay"`
 	Unit   int           `json:"unit"`
 	Count  int           `json:"count"`
+	W      workerCfg     `json:"worker"` // who found it (for a worker-history replay)
 }
 
 type workerResult struct {
@@ -182,7 +193,7 @@ func Worker(c workerCfg) int {
 					continue
 				}
 				seen[cl] = len(res.Viol)
-				fv := foundViolation{V: v, Unit: ui, Count: 1}
+				fv := foundViolation{V: v, Unit: ui, Count: 1, W: c}
 				isKnown := false
 				for _, k := range known {
 					if k.matches(v) {
@@ -238,7 +249,11 @@ func confirmAndShrink(sc scen.Scenario, c workerCfg, ui int, useed uint64, force
 	// confirm: replaying the recorded tape must give the same class and log hash
 	o1, tr := runTapeSafe(sc, sim.NewReplay(rec), scratch, false)
 	if tr != "" || hasClass(o1, class) == nil {
-		return "", fmt.Sprintf("unit %d: violation %q did not reproduce from its own tape (non-determinism in the harness): %s %s", ui, class, v.Msg, tr)
+		// Not reproducible from the unit's tape within this process. If what differs is state the code
+		// under test carried over from the worker's earlier units, the sequence of those units in a fresh
+		// process reproduces it: record that sequence; the coordinator replays it in a fresh process and
+		// only then believes it (otherwise it is reported as trouble, as before).
+		return writeHistoryReplay(c, ui, useed, v), ""
 	}
 	// in-process scenarios run in well under a millisecond: the budget is time, not tries
 	budget := 20000
@@ -277,7 +292,7 @@ func confirmAndShrink(sc scen.Scenario, c workerCfg, ui int, useed uint64, force
 		of, _ = runTapeSafe(sc, tf, scratch, true)
 		mv = hasClass(of, class)
 		if mv == nil {
-			return "", fmt.Sprintf("unit %d: violation %q lost during minimisation", ui, class)
+			return writeHistoryReplay(c, ui, useed, v), ""
 		}
 	}
 	rf := ReplayFile{Property: c.Prop, Seed: c.Seed, Unit: ui, UnitSeed: useed, Forced: forced, Rule: mv.Rule, Sig: mv.Sig, Msg: mv.Msg,
@@ -293,6 +308,60 @@ func confirmAndShrink(sc scen.Scenario, c workerCfg, ui int, useed uint64, force
 		return "", "cannot write replay file: " + err.Error()
 	}
 	return path, ""
+}
+
+func writeHistoryReplay(c workerCfg, ui int, useed uint64, v sim.Violation) string {
+	rf := ReplayFile{Property: c.Prop, Seed: c.Seed, Unit: ui, UnitSeed: useed, Rule: v.Rule, Sig: v.Sig, Msg: v.Msg,
+		Kind: "worker-history", Tier: c.Tier, Wid: c.Wid, NW: c.NW, Start: c.Start}
+	dir := filepath.Join(VerifDir(), "replays")
+	os.MkdirAll(dir, 0777)
+	path := filepath.Join(dir, fmt.Sprintf("%s-s%d-u%d-%s-%08x-history.json", c.Prop, c.Seed, ui, sanitize(v.Rule), uint32(sim.HashString(v.Sig))))
+	js, _ := json.MarshalIndent(rf, "", " ")
+	if err := os.WriteFile(path, js, 0666); err != nil {
+		return ""
+	}
+	return path
+}
+
+// replayHistory re-executes, in this fresh process, the units a worker executed up to and
+// including the failing one, and looks for the violation class at that unit.
+func replayHistory(rf ReplayFile) int {
+	sc := Registry[rf.Property]
+	class := rf.Rule + "|" + rf.Sig
+	st := sim.NewStats()
+	var hit *sim.Violation
+	nw := rf.NW
+	if nw <= 0 {
+		nw = 1
+	}
+	n := 0
+	for ui := rf.Start + rf.Wid; ui <= rf.Unit; ui += nw {
+		ui := ui
+		useed := sim.SeedFor(rf.Seed, rf.Property, ui)
+		u := &scen.Unit{Seed: useed, Tier: rf.Tier, St: st}
+		u.Expired = func() bool { return false }
+		u.Exec = func(forced map[string]int) *sim.Outcome {
+			t := sim.NewTape(useed)
+			t.Forced = forced
+			o, _ := runTapeSafe(sc, t, st, false)
+			if ui == rf.Unit && hit == nil {
+				if v := hasClass(o, class); v != nil {
+					c := *v
+					hit = &c
+				}
+			}
+			return o
+		}
+		sc.Unit(u)
+		n++
+	}
+	fmt.Printf("worker-history replay: %d units of worker %d/%d executed in sequence (units %d, %d, ... %d)\n", n, rf.Wid, nw, rf.Start+rf.Wid, rf.Start+rf.Wid+nw, rf.Unit)
+	if hit != nil {
+		fmt.Printf("REPRODUCED property=%s rule=%s sig=%q (history-dependent: it needs the runs this process executed before)\n  %s\n", rf.Property, hit.Rule, hit.Sig, hit.Msg)
+		return 1
+	}
+	fmt.Printf("NOT-REPRODUCED property=%s rule=%s sig=%q\n", rf.Property, rf.Rule, rf.Sig)
+	return 0
 }
 
 func sanitize(s string) string {
@@ -317,6 +386,9 @@ func Replay(path string) int {
 	if sc == nil {
 		fmt.Fprintln(os.Stderr, "replay: unknown property", rf.Property)
 		return 2
+	}
+	if rf.Kind == "worker-history" {
+		return replayHistory(rf)
 	}
 	o, tr := runTapeSafe(sc, sim.NewReplay(rf.TapeMin), sim.NewStats(), true)
 	if tr != "" {
@@ -529,6 +601,17 @@ func Check(prop, tier string, nworkers int) int {
 			code = ee.ExitCode()
 		} else if err != nil {
 			code = 2
+		}
+		if code != 1 && !strings.HasSuffix(fv.Replay, "-history.json") {
+			// the tape alone does not reproduce it in a fresh process: does the finder's unit sequence?
+			if hp := writeHistoryReplay(fv.W, fv.Unit, sim.SeedFor(fv.W.Seed, fv.W.Prop, fv.Unit), fv.V); hp != "" {
+				cmd := exec.Command(exe, "--replay", hp)
+				cmd.Env = append(os.Environ(), "VERIF_DIR="+vd)
+				out2, err2 := cmd.CombinedOutput()
+				if ee, ok := err2.(*exec.ExitError); ok && ee.ExitCode() == 1 {
+					fv.Replay, code, out = hp, 1, out2
+				}
+			}
 		}
 		if code != 1 {
 			trouble = append(trouble, fmt.Sprintf("violation %s did not reproduce in a fresh process from %s: %s", cl, fv.Replay, lastLines(string(out), 4)))
